@@ -15,7 +15,7 @@ fn cfg(dir: &std::path::Path, mfs: u64, cache: usize, conc: usize) -> Config {
         "readers_cache_size": cache,
         "max_file_size": mfs,
         "sync": "none",
-        // every non-empty file eligible: partial selection is the known finding D2 (C05)
+        // every non-empty file eligible (partial selection is C05's subject)
         "merge": {"policy": "never", "thresholds": {"fragmentation": 0.0, "dead_bytes": 0, "small_file": u64::MAX}},
     }))
     .unwrap()
